@@ -111,6 +111,22 @@ func (jenny *Builder) generateBuilder(context languages.Context, builder ast.Bui
 			"emptyValueForGuard": func(guard ast.AssignmentNilCheck) string {
 				return jenny.emptyValueForGuard(context, guard.EmptyValueType)
 			},
+			// formatTypedValue formats a constant for a `name := value` declaration:
+			// untyped numeric constants would otherwise default to int/float64.
+			"formatTypedValue": func(destinationType ast.Type, value any) string {
+				resolved := context.ResolveRefs(destinationType)
+				if !resolved.IsScalar() {
+					return formatScalar(value)
+				}
+
+				switch resolved.Scalar.ScalarKind {
+				case ast.KindFloat32, ast.KindUint8, ast.KindUint16, ast.KindUint32, ast.KindUint64,
+					ast.KindInt8, ast.KindInt16, ast.KindInt32, ast.KindInt64:
+					return fmt.Sprintf("%s(%s)", resolved.Scalar.ScalarKind, formatScalar(value))
+				}
+
+				return formatScalar(value)
+			},
 			"formatValue": func(destinationType ast.Type, value any) string {
 				resolved := context.ResolveRefs(destinationType)
 
